@@ -733,3 +733,43 @@ def consts_of(st):
 
 def extra_of(st):
     return st[2] if len(st) > 2 else None
+
+
+def bitset_primitives(P, R, rule):
+    """The word-wise set operations compute what their names say: and -> in1 & in2, or -> in1 | in2, andnot and the
+    horizontal test -> in1 & ~in2 (first operand kept, second complemented), over the same word index."""
+    want = {'bitset_and': ('&', False), 'bitset_or': ('|', False), 'bitset_andnot': ('&', True), 'bitset_h_andnot': ('&', True)}
+    n = 0
+    for name, (op, neg2) in want.items():
+        f = P.fn(name)
+        if f is None:
+            continue
+        ins = [p['name'] for p in f.param_info if p.get('t', '').startswith('const bitset_page_t')]
+        if len(ins) != 2:
+            continue
+        cands = []
+        for s in f.sites():
+            for ex in event_exprs(s.ev):
+                cands += [x for x in walk(ex)]
+        for b in f.blocks.values():
+            c = (b.get('term') or {}).get('cond')
+            if isinstance(c, dict):
+                cands += [x for x in walk(c)]
+        hits = [x for x in cands if x.get('k') == 'bin' and x.get('op') in ('&', '|', '^') and {v for v in vars_in(x)} >= set(ins)]
+        if not hits:
+            continue
+        x = hits[0]
+
+        def plain(e, v):
+            return isinstance(e, dict) and e.get('k') == 'idx' and is_var(e['base'], v)
+
+        def compl(e, v):
+            return isinstance(e, dict) and e.get('k') == 'un' and e.get('op') == '~' and plain(e.get('e'), v)
+        if neg2:
+            ok = x['op'] == op and ((plain(x['l'], ins[0]) and compl(x['r'], ins[1])) or (compl(x['l'], ins[1]) and plain(x['r'], ins[0])))
+        else:
+            ok = x['op'] == op and ((plain(x['l'], ins[0]) and plain(x['r'], ins[1])) or (plain(x['l'], ins[1]) and plain(x['r'], ins[0])))
+        same_ix = len({sx(y['index']) for y in walk(x) if y.get('k') == 'idx'}) == 1
+        n += 1
+        R.ob(rule, ok and same_ix, f, '%s combines its operands as %s (computes %s)' % (name, 'in1 & ~in2' if neg2 else 'in1 %s in2' % op, sx(x)), key='bitset:%s' % name)
+    R.floor(rule, 3, 'word-wise set operations')
